@@ -120,6 +120,37 @@ func isInitFunc(fn *ssa.Function) bool {
 	return fn.Name() == "init" || strings.HasPrefix(fn.Name(), "init#")
 }
 
+// globalAddrArgs: the package-level variables whose address (or the address of a part of them) the call hands to
+// its callee — `atomic.AddInt32(&counter, 1)`, `fill(&table[0])`. Whatever receives such a pointer may write through
+// it; the loads of sync/atomic are the one exception (they count as reads).
+func globalAddrArgs(c ssa.CallInstruction) (written, read []*ssa.Global) {
+	for _, a := range c.Common().Args {
+		if _, isPtr := a.Type().Underlying().(*types.Pointer); !isPtr {
+			continue
+		}
+		switch stripConv(a).(type) {
+		case *ssa.Global, *ssa.FieldAddr, *ssa.IndexAddr:
+		default:
+			continue
+		}
+		g := globalOf(stripConv(a))
+		if g == nil || !InModuleGlobal(g) {
+			continue
+		}
+		if f := c.Common().StaticCallee(); f != nil && fnPkg(f) != nil {
+			if fnPkg(f).Path() == "sync/atomic" && strings.HasPrefix(f.Name(), "Load") {
+				read = append(read, g)
+				continue
+			}
+			if fnPkg(f).Path() == "sync" {
+				continue // a package-level mutex / wait group is a synchronisation object, not shared data
+			}
+		}
+		written = append(written, g)
+	}
+	return
+}
+
 func checkC14(p *Program, r *Report) {
 	r.Rule("R14.1", "no package-level state: no function reachable from any wrapper method (Run, ApplyParameters, InitialiseStates, FindDimensions, InitialiseDimensions) writes a package-level variable, or reads one that is written anywhere outside package initialisation")
 	r.Rule("R14.2", "model objects hold only parameter views: fields of model structs are stored only by ApplyParameters / InitialiseDimensions; Run and everything it reaches never store to the receiver")
@@ -165,6 +196,11 @@ func checkC14(p *Program, r *Report) {
 				if g := globalOf(x.Map); g != nil {
 					writtenOutsideInit[g] = append(writtenOutsideInit[g], ins)
 				}
+			case ssa.CallInstruction:
+				ws, _ := globalAddrArgs(x)
+				for _, g := range ws {
+					writtenOutsideInit[g] = append(writtenOutsideInit[g], ins)
+				}
 			}
 		})
 	}
@@ -202,6 +238,17 @@ func checkC14(p *Program, r *Report) {
 					}
 				}
 			case ssa.CallInstruction:
+				ws, rs := globalAddrArgs(x)
+				for _, g := range ws {
+					bad = true
+					r.Fail("R14.1", fmt.Sprintf("%s:writes:%s", FuncKey(fn), g.Name()), p.Pos(x.Pos()), fmt.Sprintf("the address of package-level variable %s is handed to %s during a model run, which may write through it: results depend on the history of previous runs (and concurrent cells share it)", g.Name(), callName(x.Common())))
+				}
+				for _, g := range rs {
+					if wsites := writtenOutsideInit[g]; len(wsites) > 0 {
+						bad = true
+						r.Fail("R14.1", fmt.Sprintf("%s:reads:%s", FuncKey(fn), g.Name()), p.Pos(x.Pos()), fmt.Sprintf("package-level variable %s is read during a model run and written outside package initialisation (at %s)", g.Name(), p.Pos(wsites[0].Pos())))
+					}
+				}
 				for _, cal := range p.Callees(x) {
 					pk := fnPkg(cal)
 					if pk == nil {
@@ -517,6 +564,11 @@ func globalWritesFrom(p *Program, roots []*ssa.Function) []globalWrite {
 				}
 			case *ssa.MapUpdate:
 				if g := globalOf(x.Map); g != nil {
+					out = append(out, globalWrite{fn, g, ins})
+				}
+			case ssa.CallInstruction:
+				ws, _ := globalAddrArgs(x)
+				for _, g := range ws {
 					out = append(out, globalWrite{fn, g, ins})
 				}
 			}
